@@ -38,7 +38,8 @@ def run_batch(cases, evaluator, m, t, seed=0, no_prss=False, sec_param=30, ctxar
     w = World(m, t, seed=seed, no_prss=no_prss, sec_param=sec_param, options=options)
     try:
         w.spawn(_batch, cases, evaluator, ctxarg, chunk, case_timeout)
-        st = w.run(scheduler or RandomScheduler(seed, 'all'), max_steps=max_steps)
+        # (tasks of a case that never completes may spin for ever: stop once every party's batch has returned)
+        st = w.run(scheduler or RandomScheduler(seed, 'all'), max_steps=max_steps, until_done=True)
     finally:
         w.close()
     return st, w.results, w.errors
